@@ -143,6 +143,7 @@ def run(ctx, chk):
                             an.is_call(argv[1][0], re.compile(r"new_display::<std::string::String>$")) and \
                             an.is_call(argv[1][0][2][0], str_from_slice, (P(1),)) and bool(single)
             chk.ob("S-display", "Display for SeqSlice", ok, "must write exactly String::from(self): " + (show(r[0].ret)[:200] if r else "?"), db["span"])
+        owner_ok, pending = set(), []
         for what, kw, want in (("Display for Seq", dict(name="fmt", trait="std::fmt::Display", self_re=SEQ), "fmt"),
                                ("String::from(Seq)", dict(name="from", trait="std::convert::From", self_re=r"^std::string::String$", targ_re=r"^seq::Seq<A>$"), "from"),
                                ("String::from(&Seq)", dict(name="from", trait="std::convert::From", self_re=r"^std::string::String$", targ_re=r"^&seq::Seq<A>$"), "from")):
@@ -156,6 +157,14 @@ def run(ctx, chk):
                 t = r[0].ret
                 tgt = db["path"] if want == "fmt" and db else str_from_slice
                 ok = tgt is not None and t[1] == tgt and t[2][0] == ("seqview", P(1)) and (len(t[2]) == 1 or t[2][1] == P(2))
+                if ok and want == "from":
+                    owner_ok.add("CONV<%s -> std::string::String>" % kw["targ_re"].strip("^$"))
+            pending.append((what, b, r, ok))
+        for what, b, r, ok in pending:
+            if not ok and len(r) == 1 and not r[0].guards and r[0].ret[0] == "call":
+                # the by-value form may hand `&self` to the by-reference form (itself the delegation above)
+                t = r[0].ret
+                ok = t[1] in owner_ok and t[2] == (P(1),)
             chk.ob("S-display", what, ok, "must delegate to the SeqSlice form on content(self): " + (show(r[0].ret)[:200] if r else "?"), b["span"])
     chk.floor("parser entry points", nentry, 6 * len(chk.configs))
 
